@@ -18,7 +18,7 @@ func init() {
 			"R2 the request body handed to the client is the request's Body itself, unconditionally, and errors from copying it to the responder or closing the stdin stream are propagated; " +
 			"R4 the demultiplexer's decision table (streamReader.Read against scripted sequences of stdout and stderr records, several read sizes): the reader of the response receives exactly the stdout payloads in order, the error buffer exactly the stderr payloads, and that buffer reaches only the returned log error; " +
 			"R5 the extension test that routes a request to the responder lower-cases both sides, and the split position folds case unless CaseSensitivePath; " +
-			"R6 the record reader's decision table (headers with version, type, content length up to 65535 and padding up to 255, payload reads succeeding or failing): success means the 8-byte header and contentLength+paddingLength bytes were consumed, without 16-bit wrap-around, and exactly the content is handed back; R3 (bounds obligations of the client code) is decided under C19. Since round 4: R2 also: FCGIClient.Post hands the request body reader on unwrapped for every announced length; R5 splitPos as a table. Since round 6: R7 two fastcgi blocks yield rules that each hold their own block's env entries, index files and exceptions (the evaluator models in-place append into shared arrays). Since round 7: R8 a parameter whose encoded pair fits a record is sent whole (pairs of maxWrite-3 … maxWrite bytes).",
+			"R6 the record reader's decision table (headers with version, type, content length up to 65535 and padding up to 255, payload reads succeeding or failing): success means the 8-byte header and contentLength+paddingLength bytes were consumed, without 16-bit wrap-around, and exactly the content is handed back; R3 (bounds obligations of the client code) is decided under C19. Since round 4: R2 also: FCGIClient.Post hands the request body reader on unwrapped for every announced length; R5 splitPos as a table. Since round 6: R7 two fastcgi blocks yield rules that each hold their own block's env entries, index files and exceptions (the evaluator models in-place append into shared arrays). Since round 7: R8 a parameter whose encoded pair fits a record is sent whole (pairs of maxWrite-3 … maxWrite bytes). R9 an accepted response's header block holds the application's fields and not the CGI status line; R5's splitPos table finds the split string in any letter case with CaseSensitivePath on and off.",
 		notDecided: "byte equality of params/body for all sizes (arithmetic of the flush thresholds); demultiplexing beyond the scripted framings (the table is per record and per short script).",
 	})
 }
@@ -34,6 +34,7 @@ func runC13(r *Report, p *Program) {
 	c13R6(h)
 	c13R7(h)
 	c13R8(h)
+	c13R9(h)
 }
 
 func (p *Program) constInt(rel, name string) (int64, bool) {
@@ -439,7 +440,7 @@ func c13R4(h H) {
 
 func c13R5(h H) {
 	r := h.r
-	r.Rule("R5", "script files are never served as text: the strings.HasSuffix test on rule.Ext in Handler.ServeHTTP takes strings.ToLower of both operands; Rule.splitPos lower-cases both operands of strings.Index outside the CaseSensitivePath branch", 2)
+	r.Rule("R5", "script files are never served as text: the strings.HasSuffix test on rule.Ext in Handler.ServeHTTP takes strings.ToLower of both operands; Rule.splitPos, as a table (E10), finds the split string in any letter case with CaseSensitivePath on and off", 2)
 	if sv := h.fn("R5", fcPkg, "Handler.ServeHTTP"); sv != nil {
 		n := 0
 		allInstrs(sv, func(in ssa.Instruction) {
@@ -465,8 +466,10 @@ func c13R5(h H) {
 		bad, n := "", 0
 		for _, c := range []cs{
 			{"/a/index.php/info", ".php", false, 8}, {"/a/index.php/info", ".php", true, 8},
-			{"/App/Index.PHP/info", ".php", false, 10}, {"/App/Index.PHP/info", ".php", true, -1},
-			{"/app/index.php", ".PHP", false, 10}, {"/app/index.php", ".PHP", true, -1},
+			// (the statement says "in any letter case", with no exception for CASE_SENSITIVE_PATH; until round 7 this
+			// table expected -1 for the two case-sensitive rows — the code's own behaviour, not the property's)
+			{"/App/Index.PHP/info", ".php", false, 10}, {"/App/Index.PHP/info", ".php", true, 10},
+			{"/app/index.php", ".PHP", false, 10}, {"/app/index.php", ".PHP", true, 10},
 			{"/app/static.txt", ".php", false, -1}, {"/x.php/y.php", ".php", false, 2},
 		} {
 			n++
@@ -478,7 +481,7 @@ func c13R5(h H) {
 				break
 			}
 		}
-		r.Check(bad == "", "R5", "fastcgi.Rule.splitPos/casefolded", sp.Pos(), "the split string is found regardless of letter case unless paths are case sensitive", sprintf("%d cases evaluated", n), bad)
+		r.Check(bad == "", "R5", "fastcgi.Rule.splitPos/casefolded", sp.Pos(), "the split string is found regardless of letter case, whatever CaseSensitivePath says (a script that cannot be split falls through to the file server)", sprintf("%d cases evaluated", n), bad)
 	}
 }
 
